@@ -15,7 +15,7 @@ class C39(core.Prop):
     drivers = ["mc_peek"]
     ready = False
     max_workers = 6
-    sizes = {"quick": 240, "thorough": 20000}
+    sizes = {"quick": 100, "thorough": 5000}
     technique = ("property-based testing (Hypothesis): metamorphic relation on real kernel states - a pair of co-enabled transitions "
                  "that the checker declares independent must commute (both orders executable, same state fingerprint)")
     rule = ("Hypothesis-generated synchronisation programs (vf/syncgen.py, model-checker subset: mutexes incl. recursive and try_lock, "
